@@ -301,7 +301,7 @@ def parse_header(source: BinaryIO) -> Tuple[OFXHeaderType, str]:
         message = decoded_source[header_end_index:]
     else:
         logger.debug("No XML declaration - OFX version 1")
-        rawheader = line + "\n"
+        rawheader = line
         # First line is OFXHEADER; need to read next 8 lines for a fixed
         # total of 9 fields required by OFX v1 spec.
         for _ in range(8):
